@@ -69,6 +69,36 @@ func (c *Chain) Dump() []string {
 	add("BAL pool %s", c.Bal(c.ModAddr(obtypes.OrderBookLiquidityFunder{}.GetModuleAcc())))
 	add("BAL betfee %s", c.Bal(c.ModAddr(bettypes.BetFeeCollectorFunder{}.GetModuleAcc())))
 	add("BAL housefee %s", c.Bal(c.ModAddr(housetypes.HouseFeeCollectorFunder{}.GetModuleAcc())))
+	for _, sa := range c.App.SubaccountKeeper.GetAllSubaccounts(ctx) {
+		id := c.AccID(sa.Address) - 1000
+		add("BAL sub%d %s", id, c.Bal(sdk.MustAccAddressFromBech32(sa.Address)))
+		add("SUB %d %s %s %s %s %s", id, c.accS(sa.Owner), intS(sa.Balance.DepositedAmount), intS(sa.Balance.SpentAmount),
+			intS(sa.Balance.WithdrawnAmount), intS(sa.Balance.LostAmount))
+		for _, lb := range sa.LockedBalances {
+			add("LOCK %d %d %s", id, lb.UnlockTS, intS(lb.Amount))
+		}
+	}
+	add("SUBNEXT %d", c.App.SubaccountKeeper.Peek(ctx))
+	if kv, found := c.App.OVMKeeper.GetKeyVault(ctx); found {
+		var ks []string
+		for _, k := range kv.PublicKeys {
+			ks = append(ks, fmt.Sprintf("%d", c.keyID(k)))
+		}
+		add("%s", joinNZ("VAULT", strings.Join(ks, " ")))
+	}
+	add("PCNT %d", c.App.OVMKeeper.GetProposalStats(ctx).PubkeysChangeCount)
+	props, _ := c.App.OVMKeeper.GetAllPubkeysChangeProposals(ctx)
+	for _, p := range props {
+		var ks, vs []string
+		for _, k := range p.Modifications.PublicKeys {
+			ks = append(ks, fmt.Sprintf("%d", c.keyID(k)))
+		}
+		for _, v := range p.Votes {
+			vs = append(vs, fmt.Sprintf("%d:%d", c.keyID(v.PublicKey), int32(v.Vote)))
+		}
+		add("%s", joinNZ(fmt.Sprintf("PROP %d %s %d %d %d %d %d |", p.Id, c.accS(p.Creator), p.Modifications.LeaderIndex, p.StartTS,
+			int32(p.Status), int32(p.Result), p.FinishTS), strings.Join(ks, " "), "|", strings.Join(vs, " ")))
+	}
 	add("SUP %s", c.Supply())
 	m := c.App.MintKeeper.GetMinter(ctx)
 	add("MINT %s %d %s %s", decRaw(m.Inflation), m.PhaseStep, decRaw(m.PhaseProvisions), decRaw(m.TruncatedTokens))
